@@ -386,7 +386,7 @@ def judge_pairs(ctx, binary, pairs, shrink=True):
         m = p.a["m"]
         sa, sb = oa["status"], ob["status"]
         tie = p.kind == "perm" and m in KNN and knn_boundary_tie(p.a["X"], p.a["k"])
-        if tie and not (sa.startswith("harness") or sb.startswith("harness")):
+        if tie and not (sa.startswith(("harness", "abort")) or sb.startswith(("harness", "abort"))):
             # equidistant candidates for the last neighbour slot: WHICH of them is listed depends on the sample
             # order, legitimately; the two graphs (hence connectivity, geodesics, weights) need not correspond
             v["trivial"] = "knn-boundary-tie"
@@ -399,7 +399,7 @@ def judge_pairs(ctx, binary, pairs, shrink=True):
         if sa != "ok" or sb != "ok":
             if sa.startswith("harness") or sb.startswith("harness"):
                 v["fail"] = ("harness", "harness error: %s / %s" % (sa, sb))
-            elif sa == sb:
+            elif sa == sb and not sa.startswith("abort"):
                 v["trivial"] = "both-" + sa.split(":")[0] + ":" + sa.split(":", 1)[-1].split("@")[0]
             elif sa.startswith("abort") and sb.startswith("abort"):
                 v["trivial"] = "both-abort"
@@ -791,8 +791,11 @@ def knn_prepare(r, count):
         D = r.choice([2, 2, 3])
         k = r.range(5, 20)
         sh = r.choice([0, 2])
-        shape = r.choice([0, 0, 0, 1, 2])
-        if shape == 0:
+        shape = r.choice([0, 0, 0, 0, 1, 2, 3])
+        if shape == 3:        # heavy repetition: more coinciding samples than neighbours are asked for
+            base = [tuple(25 * r.range(-400, 400) for _ in range(D)) for _ in range(max(4, n // 12))]
+            X = [r.choice(base) for _ in range(n)]
+        elif shape == 0:
             X = [tuple(25 * r.range(-400, 400) for _ in range(D)) for _ in range(n)]
         elif shape == 1:      # anisotropic box
             X = [tuple(25 * (r.range(-400, 400) // (1 + 3 * c)) for c in range(D)) for _ in range(n)]
